@@ -100,6 +100,7 @@ def units(tier, seed):
     us.append({'kind': 'eigh_generic', 'tier': tier, 'seed': seed})
     us.append({'kind': 'eig', 'tier': tier, 'seed': seed})
     us.append({'kind': 'svd', 'tier': tier, 'seed': seed})
+    us.append({'kind': 'patterns', 'tier': tier, 'seed': seed})
     return us
 
 
@@ -519,9 +520,101 @@ def run_svd(c, u):
                     break
 
 
+def run_patterns(c, u):
+    """all 2^(D-1) SUPPORT patterns of the higher coefficients (which orders are exactly zero) and the memory layouts
+    {C, per-slice Fortran (transposing view), strided}, on representative base matrices of every factorization"""
+    tier = u['tier']
+    D = 4 if tier == 'quick' else 5
+    pats = list(itertools.product((0, 1), repeat=D - 1))
+    P = len(pats)
+
+    def build(A0, sym, off):
+        A = np.zeros((D, P) + A0.shape)
+        A[0] = A0
+        dense = fills(A0.shape, D, P, off, sym=sym)
+        for p, pat in enumerate(pats):
+            for k, on in enumerate(pat):
+                if on:
+                    A[k + 1, p] = dense[k, p]
+        return A
+    jobs = []
+    for A0 in [rect_matrices(3, 3)[i] for i in (0, 7, 4000, 9000)] + [rect_matrices(3, 2)[i] for i in (0, 100)] + [rect_matrices(2, 3)[5]]:
+        jobs.append(('qr', A0, False))
+    for A0 in [spd_matrices(3)[i] for i in (0, 5, 300)] + [spd_matrices(2)[3]]:
+        jobs.append(('cholesky', A0, True))
+    for A0 in [L7.base_matrices(3)[i] for i in (0, 11, 5000, 11000)]:
+        jobs.append(('lu', A0, False))
+    for A0 in [np.array([[1.0, 0.5, 0.0], [0.5, 3.0, -1.0], [0.0, -1.0, 6.0]]), np.diag([1.0, 1.0, 4.0]), np.diag([2.0, 2.0, 2.0])]:
+        jobs.append(('eigh', A0, True))
+    for A0 in [np.array([[3.0, 1.0, 0.0], [-1.0, 1.5, 1.0], [0.0, 1.0, 0.5]]), np.array([[3.0, 1.0, -1.0], [0.0, 1.5, 1.0]])]:
+        jobs.append(('svd', A0, False))
+    for name, A0, sym in jobs:
+        for lay in ('C', 'F', 'strided'):
+            A = build(A0, sym, 3 + len(name))
+            if lay == 'C':
+                x = UTPM(A.copy())
+            elif lay == 'F':
+                x = UTPM(np.ascontiguousarray(np.swapaxes(A, -1, -2))).T
+            else:
+                big = np.full(A.shape[:-1] + (2 * A.shape[-1],), 7.5)
+                big[..., ::2] = A
+                x = UTPM(big[..., ::2])
+            snap = x.data.copy()
+            case = {'fn': name, 'layout': lay, 'A0': A0.tolist(), 'D': D}
+            c.out['evals'] += P
+            c.out['keys'] += ['pat|%s|%s|%s|%d' % (name, lay, A0.tolist(), p) for p in range(P)]
+            tag = '%s|support patterns|layout %s' % (name, lay)
+            try:
+                if name == 'qr':
+                    Q, R = algopy.qr(x)
+                    for p in range(P):
+                        As, Qs, Rs = L7.mser(A[:, p]), L7.mser(Q.data[:, p]), L7.mser(R.data[:, p])
+                        cond = np.linalg.cond(A0[:, :min(A0.shape)])
+                        if not (check_eq(c, tag, 'QR=A', L7.ms_mul(Qs, Rs), As, L7.ms_mul(L7.ms_abs(Qs), L7.ms_abs(Rs)), cond, dict(case, pattern=list(pats[p]))) and
+                                check_eq(c, tag, 'QtQ=I', L7.ms_mul(transpose_s(Qs), Qs), ident_series(Q.data.shape[3], D), L7.ms_mul(L7.ms_abs(transpose_s(Qs)), L7.ms_abs(Qs)), cond, dict(case, pattern=list(pats[p])))):
+                            break
+                elif name == 'cholesky':
+                    Lf = algopy.cholesky(x)
+                    for p in range(P):
+                        As, Ls = L7.mser(A[:, p]), L7.mser(Lf.data[:, p])
+                        if not check_eq(c, tag, 'LLt=A', L7.ms_mul(Ls, transpose_s(Ls)), As, L7.ms_mul(L7.ms_abs(Ls), L7.ms_abs(transpose_s(Ls))), np.linalg.cond(A0), dict(case, pattern=list(pats[p]))):
+                            break
+                elif name == 'lu':
+                    Pm, Lf, Uf = algopy.lu(x)
+                    for p in range(P):
+                        As, Ps, Ls, Us = L7.mser(A[:, p]), L7.mser(Pm.data[:, p]), L7.mser(Lf.data[:, p]), L7.mser(Uf.data[:, p])
+                        if not check_eq(c, tag, 'PLU=A', L7.ms_mul(Ps, L7.ms_mul(Ls, Us)), As, L7.ms_mul(L7.ms_abs(Ls), L7.ms_abs(Us)), np.linalg.cond(A0), dict(case, pattern=list(pats[p]))):
+                            break
+                elif name == 'eigh':
+                    l, Q = algopy.eigh(x)
+                    check_eigh(c, tag, A, l, Q, case, 1e5)
+                else:
+                    U, sv, V = algopy.svd(x)
+                    M_, N_ = A0.shape
+                    K = min(M_, N_)
+                    for p in range(P):
+                        As, Us, Vs = L7.mser(A[:, p]), L7.mser(U.data[:, p]), L7.mser(V.data[:, p])
+                        Ss = []
+                        for d in range(D):
+                            Sd = np.zeros((M_, N_))
+                            Sd[:K, :K] = np.diag(sv.data[d, p])
+                            Ss.append(QS.lift(Sd))
+                        USV = L7.ms_mul(L7.ms_mul(Us, Ss), transpose_s(Vs))
+                        if not check_eq(c, tag, 'USVt=A', USV, As, L7.ms_mul(L7.ms_mul(L7.ms_abs(Us), L7.ms_abs(Ss)), L7.ms_abs(transpose_s(Vs))), 10 * np.linalg.cond(A0), dict(case, pattern=list(pats[p])), 1e4):
+                            break
+            except Exception as ex:
+                c.fail('C08|%s|raises' % tag, case, {'error': '%s: %s' % (type(ex).__name__, str(ex)[:160])})
+                continue
+            if not np.array_equal(x.data, snap):
+                c.fail('C08|%s|operand modified' % tag, case, {})
+
+
 def run_unit(u):
     c = Ctx(u)
     k = u['kind']
+    if k == 'patterns':
+        run_patterns(c, u)
+        return c.out
     {'qr': run_qr, 'cholesky': run_cholesky, 'lu': run_lu, 'eigh': run_eigh, 'eigh_generic': run_eigh_generic, 'eig': run_eig, 'svd': run_svd}[k](c, u)
     return c.out
 
